@@ -43,6 +43,7 @@ CONFIG = {
     "shrink_s": 90.0,
 }
 SAMPLE_AT = (50, 150, 450)
+CONFIRM_AT = 1350      # a candidate for growth that no named root explains is confirmed (or dismissed) on a three times longer history
 SLOPE = 0.5
 
 
@@ -125,6 +126,7 @@ class Sampler:
         self.samples: list[dict] = []
         self.ids1: set | None = None
         self.want = {warmup + n + 1: n for n in SAMPLE_AT}
+        self.can_extend = False     # modes whose history length is decided run by run (all but the single CLI launch)
 
     by_harness = False      # reuse / fresh / launches: the harness loop itself marks run starts (works for runs that
                             # fail before any leaf is invoked); launch / queue: the first leaf marks them
@@ -142,6 +144,20 @@ class Sampler:
         n = self.want.get(self.count)
         if n is not None:
             self.sample(n)
+            if n == SAMPLE_AT[-1] and self.can_extend and self._candidate_without_root():
+                self.want[self.warmup + CONFIRM_AT + 1] = CONFIRM_AT
+
+    def more(self) -> bool:
+        """True while the history has not reached its last sample point."""
+        return self.count < max(self.want)
+
+    def _candidate_without_root(self) -> bool:
+        s2, s3 = self.samples[-2], self.samples[-1]
+        if (s3["gc"] - s2["gc"]) / 300.0 < SLOPE:
+            return False
+        a2, a3 = s2.get("attributed", {}), s3.get("attributed", {})
+        rooted = sum(max(0, a3.get(r, 0) - a2.get(r, 0)) for r in set(a2) | set(a3)) / 300.0
+        return (s3["gc"] - s2["gc"]) / 300.0 - rooted >= SLOPE / 2
 
     def sample(self, n: int) -> None:
         gc.collect()
@@ -265,6 +281,7 @@ def _run_mode(sc: dict, mode: str, w, stats: dict) -> list[dict]:
         failing = bool(sc.get("failing"))
 
         sampler.by_harness = mode in ("reuse", "fresh", "launches") or (mode == "queue" and bool(sc.get("fire_forget")))
+        sampler.can_extend = mode != "launch"
 
         def one(p, tick=True):
             if tick:
@@ -293,7 +310,7 @@ def _run_mode(sc: dict, mode: str, w, stats: dict) -> list[dict]:
             p = Pipeline(copy.deepcopy(nodes), logger=lg, trace=driver("reuse"))
             roots["reused_pipeline.transport"] = p.transport
             roots["reused_pipeline"] = p
-            for _ in range(total):
+            while sampler.more():
                 one(p)
         elif mode == "fresh":
             shared = None
@@ -301,7 +318,7 @@ def _run_mode(sc: dict, mode: str, w, stats: dict) -> list[dict]:
                 from semantiva.execution.orchestrator.orchestrator import LocalSemantivaOrchestrator
                 shared = LocalSemantivaOrchestrator()
                 roots["shared_orchestrator"] = shared
-            for _ in range(total):
+            while sampler.more():
                 sampler.tick_run()
                 try:
                     p = Pipeline(copy.deepcopy(nodes), logger=lg, trace=driver("fresh"), **({"orchestrator": shared} if shared is not None else {}))
@@ -330,19 +347,22 @@ def _run_mode(sc: dict, mode: str, w, stats: dict) -> list[dict]:
             argv = ["run", "one.yaml", "-q"]
             for k, v in base["context"].items():
                 argv += ["--context", f"{k}={json.dumps(v)}"]
-            for _ in range(total):
+            while sampler.more():
                 sampler.tick_run()
                 r = harness.run_cli(argv)         # redirect_stdout(StringIO()) inside: a fresh stdout object per launch
                 if (r["code"] != 0) != failing:
                     raise RuntimeError(f"launch outcome unexpected: {r['code']} {r['stderr'][:300]}")
         elif mode == "queue":
             _queue_mode(sc, total, roots, lg, sampler)
-        if len(sampler.samples) != 3:
+        if len(sampler.samples) not in (3, 4):
             raise RuntimeError(f"mode {mode}: only {len(sampler.samples)} samples (count={sampler.count})")
     finally:
         svlib.TICK = None
         svworld.WORLD = w
-    s1, s2, s3 = sampler.samples
+    s1, s2, s3 = sampler.samples[:3]
+    s4 = sampler.samples[3] if len(sampler.samples) == 4 else None
+    if s4 is not None:
+        stats["probe.candidate_growth_confirmed_on_longer_history"] = stats.get("probe.candidate_growth_confirmed_on_longer_history", 0) + 1
     out = []
     # registries / containers equal at 50, 150 and 450
     grown_reg = [k for k in s1["containers"] if k.startswith("component_registry[") and not (s1["containers"][k] == s2["containers"].get(k) == s3["containers"].get(k))]
@@ -371,9 +391,19 @@ def _run_mode(sc: dict, mode: str, w, stats: dict) -> list[dict]:
                 out.append(oracles.V("gc_growth", f"{root}/{mode}", f"gc population {s1['gc']}/{s2['gc']}/{s3['gc']} after 50/150/450 runs "
                                      f"(slopes {slope_a:.2f}, {slope_b:.2f} objects/run); {rs:.2f} objects/run reachable from root {root}"))
         us = (s3.get("unattributed", 0) - s2.get("unattributed", 0)) / 300.0
-        # total growth that no single root explains is still growth: report it as unattributed
-        if us >= SLOPE or (not flagged and slope_b >= 2 * SLOPE):
-            out.append(oracles.V("gc_growth", f"unattributed/{mode}", f"gc population {s1['gc']}/{s2['gc']}/{s3['gc']} (slopes {slope_a:.2f}, {slope_b:.2f}); "
+        # total growth that no single root explains is still growth: report it as unattributed - if it is growth WITH N:
+        # where the history could be extended, the 450 -> 1350 interval has to show it as well (a bounded sawtooth, e.g. dead
+        # weak references waiting for an amortised prune, does not)
+        cand = us >= SLOPE or (not flagged and slope_b >= 2 * SLOPE)
+        if cand and s4 is not None:
+            span = float(CONFIRM_AT - SAMPLE_AT[-1])
+            us2 = (s4.get("unattributed", 0) - s3.get("unattributed", 0)) / span
+            slope_c = (s4["gc"] - s3["gc"]) / span
+            stats[f"slope_{mode}_confirm"] = slope_c
+            cand = us2 >= SLOPE or (not flagged and slope_c >= SLOPE)
+        if cand:
+            out.append(oracles.V("gc_growth", f"unattributed/{mode}", f"gc population {s1['gc']}/{s2['gc']}/{s3['gc']}" + (f"/{s4['gc']}" if s4 else "") +
+                                 f" (slopes {slope_a:.2f}, {slope_b:.2f}); "
                                  f"{us:.2f} objects/run reachable from no named root; types {s3.get('unattributed_types')}"))
     return out
 
@@ -390,7 +420,7 @@ def _queue_mode(sc: dict, total: int, roots: dict, lg, sampler=None) -> None:
     from semantiva.execution.transport import in_memory as im
     base = sc["base"]
     sched = threads.Scheduler(sc["sched_seed"], targets=("execution/job_queue/queue_orchestrator.py", "execution/job_queue/worker.py"),
-                              strategy={"kind": "random", "p": 0.05}, max_steps=5_000_000)
+                              strategy={"kind": "random", "p": 0.05}, max_steps=20_000_000)
     sched.log = lambda *a: None            # the scheduler records nothing per job either
     sched.switches = _NullList()
     sched.choices = _NullList()
@@ -409,7 +439,9 @@ def _queue_mode(sc: dict, total: int, roots: dict, lg, sampler=None) -> None:
         def client_fire_forget():
             # Nobody awaits a result. The client itself marks run starts (sample points are quiescent: job i has reported and
             # the master has collected the report, or a bounded wait has expired).
-            for i in range(total):
+            i = -1
+            while sampler.more():
+                i += 1
                 sampler.tick_run()
                 orch.enqueue(copy.deepcopy(base["nodes"]), context=ContextType(copy.deepcopy(base["context"])), registry_profile=profile)
                 waited = 0
@@ -429,7 +461,9 @@ def _queue_mode(sc: dict, total: int, roots: dict, lg, sampler=None) -> None:
             stop.set()
 
         def client():
-            for i in range(total):
+            i = -1
+            while sampler.more():
+                i += 1
                 fut = orch.enqueue(copy.deepcopy(base["nodes"]), context=ContextType(copy.deepcopy(base["context"])), return_future=True,
                                    registry_profile=profile)
                 waited = 0
